@@ -134,8 +134,76 @@ pub fn panic_msg(p: &Box<dyn std::any::Any + Send>) -> String {
     }
 }
 
+/// child mode: `replay --threads <site> <nth> <mode>`: the real thread_manager::run with one injected worker fault, in a
+/// private mount namespace (tmpfs over /var/run/clockbound) when the sandbox allows it; prints the time run() took to return.
+fn threads_child(a: &[String]) -> ! {
+    let n = |i: usize| a.get(i).and_then(|x| x.parse::<u32>().ok()).unwrap_or(0);
+    let isolated = unsafe {
+        let _ = std::fs::create_dir_all("/var/run/clockbound");
+        libc::unshare(libc::CLONE_NEWNS) == 0
+            && libc::mount(std::ptr::null(), b"/\0".as_ptr() as *const libc::c_char, std::ptr::null(), libc::MS_REC | libc::MS_PRIVATE, std::ptr::null()) == 0
+            && libc::mount(
+                b"none\0".as_ptr() as *const libc::c_char,
+                b"/var/run/clockbound\0".as_ptr() as *const libc::c_char,
+                b"tmpfs\0".as_ptr() as *const libc::c_char,
+                0,
+                std::ptr::null(),
+            ) == 0
+    };
+    clock_bound_d::verif::fault::arm(n(0), n(1), n(2));
+    let t0 = std::time::Instant::now();
+    clock_bound_d::thread_manager::run(1000, None);
+    println!("returned_ms={} isolated={}", t0.elapsed().as_millis(), isolated);
+    std::process::exit(0);
+}
+
+/// threads <site> <nth> <mode> [<watchdog ms>]: run the child above; report when (whether) thread_manager::run returned
+fn cmd_threads(a: &[&str]) -> String {
+    let wd: u64 = a.get(3).and_then(|x| x.parse().ok()).unwrap_or(10_000);
+    let exe = match std::env::current_exe() {
+        Ok(e) => e,
+        Err(_) => return "noexe".into(),
+    };
+    let mut child = match std::process::Command::new(exe)
+        .arg("--threads")
+        .args(&a[..a.len().min(3)])
+        .stdin(std::process::Stdio::null())
+        .stdout(std::process::Stdio::piped())
+        .stderr(std::process::Stdio::null())
+        .spawn()
+    {
+        Ok(c) => c,
+        Err(_) => return "nospawn".into(),
+    };
+    let t0 = std::time::Instant::now();
+    loop {
+        match child.try_wait() {
+            Ok(Some(st)) => {
+                let mut out = String::new();
+                if let Some(mut o) = child.stdout.take() {
+                    use std::io::Read;
+                    let _ = o.read_to_string(&mut out);
+                }
+                return format!("ok exited code={} wall_ms={} {}", st.code().unwrap_or(-1), t0.elapsed().as_millis(), out.trim().replace('\n', " "));
+            }
+            Ok(None) => {}
+            Err(_) => return "waiterr".into(),
+        }
+        if t0.elapsed().as_millis() as u64 > wd {
+            let _ = child.kill();
+            let _ = child.wait();
+            return format!("ok hung wall_ms={} (thread_manager::run had not returned; child killed)", t0.elapsed().as_millis());
+        }
+        std::thread::sleep(std::time::Duration::from_millis(20));
+    }
+}
+
 fn main() {
     std::panic::set_hook(Box::new(|_| {}));
+    let argv: Vec<String> = std::env::args().collect();
+    if argv.get(1).map(|s| s.as_str()) == Some("--threads") {
+        threads_child(&argv[2..]);
+    }
     let stdin = std::io::stdin();
     let stdout = std::io::stdout();
     let mut out = stdout.lock();
@@ -170,6 +238,7 @@ fn main() {
             "snapshot_stall" => seg::cmd_snapshot_stall(&rest),
             "snapshot_busy" => seg::cmd_snapshot_busy(&rest),
             "e2e" => daemon::cmd_e2e(&rest),
+            "threads" => cmd_threads(&rest),
             "ping" => "pong".to_string(),
             _ => format!("unknown-command {}", cmd),
         };
